@@ -88,9 +88,9 @@ SPEC = [
     dict(group="16", name="cadence_time", file="setigen/cadence.py", cls="Cadence", func="add_signal", what="nth:frame.ts:1",      # inside the loop over frames; elementwise on the time axis
          params=[("ts", "Q"), ("frame_start", "Q"), ("cadence_start", "Q")], ret="Q", opaque={"frame.t_start": "frame_start", "self.t_start": "cadence_start"}),
     dict(group="16", name="overwrite_start", file="setigen/cadence.py", cls="Cadence", func="overwrite_times", what="nth:frame.t_start:1",   # loop over frames[1:]
-         params=[("prev_stop", "Q"), ("t_slew", "Q")], ret="Q", opaque={"self.frames[i].t_stop": "prev_stop"}),
+         params=[("prev_stop", "Q"), ("t_slew", "Q")], ret="Q", attr_params={"t_stop": "prev_stop"}),
     dict(group="16", name="slew_time", file="setigen/cadence.py", cls="Cadence", func="slew_times", what="return-elt",
-         params=[("next_start", "Q"), ("prev_stop", "Q")], ret="Q", opaque={"self.frames[i].t_start": "next_start", "self.frames[i - 1].t_stop": "prev_stop"}),
+         params=[("next_start", "Q"), ("prev_stop", "Q")], ret="Q", attr_params={"t_start": "next_start", "t_stop": "prev_stop"}),
     dict(group="18", name="insert_index", file="setigen/cadence.py", cls="OrderedCadence", func="insert", what="flow:i:order_label",     # index used for the label and list.insert
          params=[("i", "Z"), ("n", "Z")], ret="Z", opaque={"len(self)": "n"}),
     dict(group="18", name="setitem_index", file="setigen/cadence.py", cls="OrderedCadence", func="__setitem__", what="flow:i:raise",
@@ -113,12 +113,8 @@ SPEC = [
          params=[("W", "Z"), ("num_taps", "Z")], ret="Z"),
     dict(group="02", name="num_subblocks", file="setigen/voltage/backend.py", cls="RawVoltageBackend", func="collect_data_block", what="nth:self.num_subblocks:1",
          params=[("T", "Z"), ("subblock_T", "Z")], ret="Z"),
-    dict(group="09", name="quant_factor", file="setigen/voltage/quantization.py", cls=None, func="quantize_real", what="nth:factor:2",     # else branch: data_std != 0
-         params=[("target_std", "Q"), ("data_std", "Q")], ret="Q"),
-    dict(group="09", name="quant_round", file="setigen/voltage/quantization.py", cls=None, func="quantize_real", what="nth:q_voltages:1",   # elementwise
-         params=[("factor", "Q"), ("x", "Q"), ("data_mean", "Q"), ("target_mean", "Q")], ret="Z"),
-    dict(group="09", name="quant_clip", file="setigen/voltage/quantization.py", cls=None, func="quantize_real", what="nth:q_voltages:2",
-         params=[("q_voltages", "Z"), ("num_bits", "Z")], ret="Z"),
+    dict(group="09", name="quantize_real", file="setigen/voltage/quantization.py", cls=None, func="quantize_real", what="return",     # elementwise; locals (factor, bounds) inlined
+         params=[("x", "Q"), ("target_mean", "Q"), ("target_std", "Q"), ("data_mean", "Q"), ("data_std", "Q"), ("num_bits", "Z")], ret="Z"),
     dict(group="11", name="chi2_df", file="setigen/frame.py", cls="Frame", func="__init__", what="assign:self.chi2_df",
          params=[("df", "Q"), ("dt", "Q")], ret="Z"),
     dict(group="11", name="stream_noise_var", file="setigen/voltage/data_stream.py", cls="DataStream", func="add_noise", what="assign:self.noise_std",
@@ -270,10 +266,70 @@ def zlit(n):
 
 
 class Tr(object):
-    def __init__(self, entry):
+    def __init__(self, entry, fn=None, cls_body=None):
         self.types = dict(entry["params"])
         self.opaque = entry.get("opaque", {})
         self.strip_call = entry.get("strip_call")
+        self.attr_params = entry.get("attr_params", {})      # `<anything but self>.<attr>` -> parameter (e.g. prev_frame.t_stop, self.frames[i].t_stop)
+        self.fn = fn
+        self.cls_body = cls_body or []
+        self.depth = 0
+
+    def local_def(self, name):
+        """expression a local name stands for: its single assignment, or the two assignments of one if/else statement"""
+        if self.fn is None:
+            return None
+        hits = [m for m in ast.walk(self.fn) if isinstance(m, ast.Assign) and len(m.targets) == 1 and src(m.targets[0]) == name]
+        # `a, b = e1, e2` defines each name separately
+        tup = [m for m in self.fn.body if isinstance(m, ast.Assign) and len(m.targets) == 1 and isinstance(m.targets[0], ast.Tuple)
+               and isinstance(m.value, ast.Tuple) and len(m.targets[0].elts) == len(m.value.elts) and any(src(t) == name for t in m.targets[0].elts)]
+        if not hits and len(tup) == 1:
+            k = [src(t) for t in tup[0].targets[0].elts].index(name)
+            return tup[0].value.elts[k]
+        if any(isinstance(m, ast.AugAssign) and src(m.target) == name for m in ast.walk(self.fn)):
+            return None
+        if len(hits) == 1:
+            if hits[0] in self.fn.body or self._only_in_loops(hits[0]):
+                return hits[0].value
+            return None
+        if len(hits) >= 2 and all(h in self.fn.body for h in hits):
+            # straight-line re-assignments (q = f(x); q = g(q); ...): fold them in order
+            hits = sorted(hits, key=lambda m: m.lineno)
+            expr = hits[0].value
+            if any(isinstance(x, ast.Name) and x.id == name for x in ast.walk(expr)):
+                return None
+            for h in hits[1:]:
+                expr = _subst(h.value, name, expr)
+            return expr
+        if len(hits) == 2:
+            for st in ast.walk(self.fn):
+                if isinstance(st, ast.If) and len(st.body) == 1 and len(st.orelse) == 1 and st.body[0] is hits[0] and st.orelse[0] is hits[1]:
+                    return ast.IfExp(test=st.test, body=hits[0].value, orelse=hits[1].value)
+        return None
+
+    def _only_in_loops(self, node):
+        """the assignment sits in the body of for-loops / with-blocks only (executed whenever reached), not under an `if`"""
+        def find(body, path):
+            for st in body:
+                if st is node:
+                    return path
+                for fld in ("body", "orelse"):
+                    sub = getattr(st, fld, None)
+                    if isinstance(sub, list):
+                        r = find(sub, path + [(st, fld)])
+                        if r is not None:
+                            return r
+            return None
+        path = find(self.fn.body, [])
+        return path is not None and all(isinstance(st, (ast.For, ast.With)) and fld == "body" for st, fld in path)
+
+    def property_def(self, attr):
+        for m in self.cls_body:
+            if isinstance(m, ast.FunctionDef) and m.name == attr and any(src(d) == "property" for d in m.decorator_list):
+                rets = [n for n in ast.walk(m) if isinstance(n, ast.Return) and n.value is not None]
+                if len(rets) == 1:
+                    return rets[0].value
+        return None
 
     def asq(self, t):
         txt, ty = t
@@ -292,11 +348,28 @@ class Tr(object):
             return qlit(n.value), "Q"
         if isinstance(n, ast.Name):
             if n.id not in self.types:
-                raise Untranslatable("free name %s" % n.id)
+                d = self.local_def(n.id)
+                if d is None or self.depth > 12:
+                    raise Untranslatable("free name %s" % n.id)
+                self.depth += 1
+                try:
+                    return self.tr(d)
+                finally:
+                    self.depth -= 1
             return n.id, self.types[n.id]
         if isinstance(n, ast.Attribute):
+            if not (isinstance(n.value, ast.Name) and n.value.id == "self") and n.attr in self.attr_params:
+                return self.attr_params[n.attr], self.types[self.attr_params[n.attr]]
             if isinstance(n.value, ast.Name) and n.value.id in ("self", "fr", "frame") and n.attr in self.types:
                 return n.attr, self.types[n.attr]
+            if isinstance(n.value, ast.Name) and n.value.id == "self" and self.depth <= 12:
+                d = self.property_def(n.attr)
+                if d is not None:
+                    self.depth += 1
+                    try:
+                        return self.tr(d)
+                    finally:
+                        self.depth -= 1
             raise Untranslatable("attribute %s" % s)
         if isinstance(n, ast.Subscript):
             key = n.slice
@@ -342,12 +415,18 @@ class Tr(object):
             left = self.tr(n.left)
             for op, right in zip(n.ops, n.comparators):
                 r = self.tr(right)
-                if left[1] != "Z" or r[1] != "Z":
-                    raise Untranslatable("comparison of non-integers %s" % s)
-                sym = {"Lt": "(%s <? %s)%%Z", "LtE": "(%s <=? %s)%%Z", "Gt": "(%s >? %s)%%Z", "GtE": "(%s >=? %s)%%Z", "Eq": "(%s =? %s)%%Z"}.get(type(op).__name__)
-                if sym is None:
-                    raise Untranslatable("comparison operator %s" % type(op).__name__)
-                parts.append(sym % (left[0], r[0]))
+                if left[1] == "Z" and r[1] == "Z":
+                    sym = {"Lt": "(%s <? %s)%%Z", "LtE": "(%s <=? %s)%%Z", "Gt": "(%s >? %s)%%Z", "GtE": "(%s >=? %s)%%Z", "Eq": "(%s =? %s)%%Z"}.get(type(op).__name__)
+                    if sym is None:
+                        raise Untranslatable("comparison operator %s" % type(op).__name__)
+                    parts.append(sym % (left[0], r[0]))
+                else:
+                    a_, b_ = self.asq(left), self.asq(r)
+                    sym = {"Eq": "(Qeq_bool %s %s)", "LtE": "(Qle_bool %s %s)", "GtE": "(Qle_bool %s %s)", "Lt": "(negb (Qle_bool %s %s))", "Gt": "(negb (Qle_bool %s %s))"}.get(type(op).__name__)
+                    if sym is None:
+                        raise Untranslatable("comparison operator %s" % type(op).__name__)
+                    x_, y_ = (a_, b_) if type(op).__name__ in ("Eq", "LtE", "Gt") else (b_, a_)
+                    parts.append(sym % (x_, y_))
                 left = r
             txt = parts[0]
             for p in parts[1:]:
@@ -416,7 +495,8 @@ def translate(repo):
                 trees[path] = ast.parse(open(path).read())
             fn = find_func(trees[path], e["cls"], e["func"])
             node = pick(fn, e["what"])
-            txt, ty = Tr(e).tr(node)
+            cls_body = next((c.body for c in trees[path].body if isinstance(c, ast.ClassDef) and c.name == e["cls"]), [])
+            txt, ty = Tr(e, fn, cls_body).tr(node)
             if ty != e["ret"]:
                 if ty == "Z" and e["ret"] == "Q":
                     txt = "(inject_Z %s)" % txt
